@@ -151,6 +151,9 @@ pub fn panic_site(p: &PanicInfo) -> String {
     } else {
         rel.to_string()
     };
+    if std::env::var("VERIF_PANIC_LINES").is_ok() {
+        return format!("{}:{}::{}#{}", rel, p.line, f, msg_class(&p.msg));
+    }
     format!("{}::{}#{}", rel, f, msg_class(&p.msg))
 }
 
